@@ -7,6 +7,7 @@
   items are comma separated tokens; pages are separated by ';' ("-" = no pages, empty page = "").
 -/
 import OrasModel.Model.Pages
+import OrasModel.Gen.Facts
 import OrasModel.Driver.Cd
 import OrasModel.Driver.Util
 namespace Oras.Driver.Pg
@@ -68,6 +69,9 @@ def step (toks : List String) : Option (String × String) :=
       let lastStr := String.ofList last
       let sp := (tags.eraseDups.filter (fun t => last.isEmpty || lastStr < t)).foldr ins []
       some (m, ",".intercalate sp)
+  | "errbody" :: _ =>
+      -- an error answer of any size: at most `maxErrorBytes` (regenerated: 8 KiB) of it are read
+      some (if Gen.errBodyReaders == ["io.LimitReader(resp.Body, maxErrorBytes)"] && Gen.errBodyLimit == "8 * 1024" then "within" else "unbounded-read-in-source", "within")
   | _ => none
 
 end Oras.Driver.Pg
